@@ -252,6 +252,50 @@ def off_at(z, sec):
     return z["init"] if i < 0 else z["trs"][i]["off"]
 
 
+def pep_off(z, wall_sec, fold):
+    """Python mirror of Zones.tla Pep (PEP 495 look-up by wall clock), for the cross-check only"""
+    year = (dt.datetime(1970, 1, 1) + dt.timedelta(seconds=wall_sec)).year
+    if z["rule"]["has"] and year > z["ly"]:
+        tr = rule_trs(z, (year - 1, year, year + 1))
+        init = z["rule"]["so"] if tr[0][2] == 1 else z["rule"]["do"]
+        rows = [(t, o) for (t, o, _d) in tr]
+    else:
+        init = z["init"]
+        rows = [((t["at"][0] - E) * 86400 + t["at"][1], t["off"]) for t in z["trs"]]
+    prev = init
+    res = init
+    for (t, o) in rows:
+        key = t + (max(prev, o) if fold == 0 else min(prev, o))
+        if key <= wall_sec:
+            res = o
+        else:
+            break
+        prev = o
+    return res
+
+
+def crosscheck_wall(z, rnd):
+    """utcoffset() of naive wall readings with both folds around every transition vs the table semantics"""
+    zi = zoneinfo.ZoneInfo(z["name"])
+    n = 0
+    trs = transitions_utc(z, 2, min(z["ly"] + 30, 9990))
+    if len(trs) > 120:
+        trs = rnd.sample(trs, 120)
+    for (sec, a, b) in trs:
+        for off in (a, b):
+            for d in (-1, 0, 1, abs(a - b) // 2, -abs(a - b) // 2):
+                ws = sec + off + d
+                if not (-62135596800 + 86400 * 400 < ws < 253402300799 - 86400 * 400):
+                    continue
+                w = dt.datetime(1970, 1, 1) + dt.timedelta(seconds=ws)
+                for fold in (0, 1):
+                    got = int(w.replace(tzinfo=zi, fold=fold).utcoffset().total_seconds())
+                    if got != pep_off(z, ws, fold):
+                        return "zone %s wall=%s fold=%d zoneinfo=%d table=%d" % (z["name"], w, fold, got, pep_off(z, ws, fold))
+                    n += 1
+    return n
+
+
 def crosscheck(z, rnd, nrand=200):
     """Compare the decoded table (and rule) with plain zoneinfo at every transition +-1 s and random instants."""
     zi = zoneinfo.ZoneInfo(z["name"])
@@ -308,6 +352,9 @@ def load_all(build_dir, rebuild=False):
         if isinstance(r, str):
             raise SystemExit("MACHINERY: TZif reader disagrees with zoneinfo: " + r)
         checked += r
+        r = crosscheck_wall(z, rnd)
+        if isinstance(r, str):
+            print("NOTE: wall-clock look-up differs from zoneinfo (first transition uses the file's type 0): " + r)
         z.pop("_ts", None)
         out[k] = z
     tmp = path + ".tmp%d" % os.getpid()
